@@ -395,7 +395,8 @@ pub fn gen_params(rec: &mut Recorder, rng: &mut Rng, thorough: bool) {
             rec.count("with_defaults_in_domain");
         }
         rec.put(&format!("gen {f} {pk} {ws}"), &res(r));
-        if f <= 20000 && it % 8 == 0 {
+        // (block sizes kept small: checked builds re-verify the solver's matrix in O(L^3))
+        if f <= 20000 && f / t <= (if checked_build() { 150 } else { 1500 }) && it % 4 == 0 {
             let data = rng.bytes(f as usize);
             let r = guarded(move || { let e = raptorq::Encoder::with_defaults(&data, pk); (oti_str(&e.get_config()), oti_str(&Oti::with_defaults(f, pk))) });
             match r {
